@@ -9,10 +9,11 @@
                     recovery produced;
      spec_ok      : the property itself on the rows that the real reopened database returned
                     (no model involved): every acknowledged write is there (C01);
-     known_class  : 1 catalog file mid-rewrite (kill), 2 dirty pages not yet in the log (kill),
-                    3 pages written behind the dirty tracker (power), 4 Database::checkpoint()
-                    truncated the log without syncing the tables (power), 5 frames of a table whose id
-                    collides with a system table's were replayed into the wrong file.
+     known_class  : 2 dirty pages not yet in the log (kill), 3 pages written behind the dirty
+                    tracker (power).  Classes of repaired defects (witnesses are kept and must pass):
+                    1 catalog file mid-rewrite (kill), 4 Database::checkpoint() truncating the log
+                    without syncing the tables, 5 frames of a table whose id collides with a system
+                    table's replayed into the wrong file (only 1 and 5 can still be computed).
    Evaluated by vm_compute; definitions only. *)
 From Coq Require Import ZArith List Bool.
 From TV Require Export Model.Crash.
@@ -245,9 +246,8 @@ Definition class_at (sh : list Z) (sts : list st) (os : list op) (o : cobs) : Z 
           if negb power && negb (cat_ok s) then 1
           else if dv && diverted sh (if power then closed_du s ++ cur_du s else closed_fl s ++ cur_fl s) then 5
           else if power then
-            if existsb is_api_ckpt (firstn (S (Z.to_nat i)) os) then 4
-            else match g_unl (ghost_evs s0 (ghost_run init ghost0 (firstn (Z.to_nat i) os)) (pos_events s0 op_i j)) with
-                 | [] => 0 | _ => 3 end
+            match g_unl (ghost_evs s0 (ghost_run init ghost0 (firstn (Z.to_nat i) os)) (pos_events s0 op_i j)) with
+            | [] => 0 | _ => 3 end
           else if negb (cat_ok s) then 1
           else if negb (quiet s) then 2
           else 0
